@@ -1,6 +1,7 @@
 package main
 
 import (
+	"os"
 	"fmt"
 	"go/token"
 	"go/types"
@@ -920,20 +921,30 @@ func (p *prover) prove(goal constraint, at ssa.Instruction, extra []constraint, 
 		names = append(names, t)
 	}
 	sort.Strings(names)
+	if os.Getenv("TABDBG") == "2" {
+		fmt.Println("  split candidates", names, "depth", depth)
+	}
 	for _, t := range names {
 		var phi *ssa.Phi
 		isLen := false
 		if v, ok := ti.ints[t]; ok {
 			phi, _ = v.(*ssa.Phi)
-		} else if v, ok := ti.lens[t]; ok {
-			phi, _ = v.(*ssa.Phi)
-			isLen = true
+		}
+		if phi == nil {
+			// (an explicit len(x) call shares its name with the length term of x)
+			if v, ok := ti.lens[t]; ok {
+				phi, _ = v.(*ssa.Phi)
+				isLen = phi != nil
+			}
 		}
 		if phi == nil || p.isLoopPhi(phi) {
 			continue
 		}
 		if strings.Contains(fmt.Sprint(extra), "split:"+t) {
 			continue
+		}
+		if os.Getenv("TABDBG") != "" {
+			fmt.Println("  split on", t, "goal", goal.e.String(), "depth", depth)
 		}
 		all := true
 		for i, e := range phi.Edges {
